@@ -68,6 +68,8 @@ type simSource struct {
 	curDir  srcDirective // outcome drawn for the call in progress
 	served  []*recVer    // what the handler wrote for the call in progress
 	handled bool
+	// saidNotFound: the endpoint answered the current single-provider request with a clean 404
+	saidNotFound bool
 }
 
 type srcDirective struct {
@@ -229,7 +231,7 @@ func (s *simSource) httpFetchAll(ctx context.Context, call *srcCall, dir srcDire
 }
 
 func (s *simSource) httpFetch(ctx context.Context, call *srcCall, dir srcDirective, pid peer.ID, name string) (*model.ProviderInfo, error) {
-	s.curDir, s.served, s.handled = dir, nil, false
+	s.curDir, s.served, s.handled, s.saidNotFound = dir, nil, false, false
 	if dir.fail {
 		s.d.r.Fault("source-http-" + httpFaultNames[dir.kind])
 	}
@@ -249,6 +251,12 @@ func (s *simSource) httpFetch(ctx context.Context, call *srcCall, dir srcDirecti
 		s.d.r.Logf(s.name, "Fetch(%s) over HTTP -> error (fault=%v)", name, dir.fail)
 		if !dir.fail && len(s.served) > 0 {
 			s.d.r.Violate(s.d.mode+".httpsource", "Fetch(%s) through the HTTP source failed although the endpoint served the record: %v", name, err)
+		}
+		if !dir.fail && s.saidNotFound && !call.notFound {
+			// the endpoint answered a clean 404: "no such provider", which
+			// the cache must be able to tell from a failure (it remembers
+			// the one and not the other)
+			s.d.r.Violate(s.d.mode+".httpsource", "Fetch(%s) through the HTTP source: the endpoint answered 404 (not found), the source reports a failure that is not a not-found: %v", name, err)
 		}
 		return nil, err
 	case out == nil:
@@ -295,8 +303,18 @@ func (s *simSource) ServeHTTP(w http.ResponseWriter, req *http.Request) {
 	}
 	rec := s.content[s.d.names.Name(string(pid))]
 	if rec == nil {
+		// not found, in the body shapes servers use: the library's error
+		// encoding with and without a status field, plain text, nothing
+		s.saidNotFound = true
 		w.WriteHeader(http.StatusNotFound)
-		w.Write(apierror.EncodeError(apierror.New(errors.New("provider not found"), http.StatusNotFound)))
+		switch s.d.r.Tape.Choose(4, "notFoundBody") {
+		case 0:
+			w.Write(apierror.EncodeError(apierror.New(errors.New("provider not found"), http.StatusNotFound)))
+		case 1:
+			w.Write(apierror.EncodeError(errors.New("provider not found")))
+		case 2:
+			w.Write([]byte("provider not found\n"))
+		}
 		return
 	}
 	s.served = []*recVer{rec}
